@@ -154,7 +154,7 @@ _c10("c10_sfo_ramp_pending", "SincFixedOut<f32>+Probe(4,2) Cubic chunk 3, 1 ch; 
 _c10("c10_sfi_lowered_chunk", "SincFixedIn<f64>+Probe(4,2) Linear max chunk 3, 1 ch; history: set_chunk_size(2), ratio 0.5, 4 calls; reset; 5 calls vs twin", _conc)
 _c10("c10_sfi_ramp_pending", "SincFixedIn<f32>+Probe(4,3) Quadratic chunk 3, 1 ch; history: ratio 2.0 ramped, 3 calls, pending ramp, failed call; reset; 5 calls", _conc)
 _fft_sym = "mask entry of the pre-reset calls; number of pre-reset calls concrete per harness"
-_c10("c10_fto_1", "FftFixedOut<f64> 2->3 chunk 4 (block 2/3), 1 ch; 1 call, reset, 3 calls vs fresh twin", _fft_sym, stubs=FFT_STUBS)
+_c10("c10_fto_1", "FftFixedOut<f64> 2->3 chunk 4, sub_chunks 2 (block 2/3: one call changes the next input need), 1 ch; 1 call, reset, 1 call vs fresh twin", _fft_sym, stubs=FFT_STUBS)
 _c10("c10_fto_2", "FftFixedOut<f64> 2->3 chunk 4, 1 ch; 2 calls, reset, 3 calls vs fresh twin", _fft_sym, stubs=FFT_STUBS)
 _c10("c10_fto_mult_2", "FftFixedOut<f64> 2->3 chunk 6 = 2 blocks, sub_chunks 2, 1 ch; 2 calls, reset, 3 calls vs fresh twin", _fft_sym, stubs=FFT_STUBS)
 _c10("c10_fti_1", "FftFixedIn<f64> 2->3 chunk 3 (block 4/6), 1 ch; 1 call, reset, 3 calls", _fft_sym, stubs=FFT_STUBS)
@@ -192,9 +192,9 @@ _c11("c11_ffo_ch0_linear", "FastFixedOut<f32> Linear chunk 5 ratio 0.75: 2-chann
 _c11("c11_sfo_ch1_sym", "SincFixedOut<f64>+Probe(2,1) Nearest chunk 2: 2-channel vs twin for channel 1, 1 call", _m + "; sample data: every finite f32 value per sample (copy-only kernel)")
 _c11("c11_sfo_ch0_sym", "SincFixedOut<f64>+Probe(2,1) Nearest chunk 2: 2-channel vs twin for channel 0, 1 call", _m + "; symbolic finite samples")
 _c11("c11_sfi_ch1_sym", "SincFixedIn<f64>+Probe(2,1) Nearest chunk 5: 2-channel vs twin for channel 1, 1 call", _m + "; symbolic finite samples")
-_c11("c11_ffi_ch1_line", "FastFixedIn<f64> Nearest chunk 12: 2-channel vs twin for channel 1, 1 call, index lines", _m)
+_c11("c11_ffi_ch1_line", "FastFixedIn<f64> Nearest chunk 10: 2-channel vs twin for channel 1, 1 call, index lines", _m)
 _c11("c11_ftio_ch1", "FftFixedInOut<f64> 2->3 chunk 2: 2-channel vs twin for channel 1, 2 calls (per-channel overlap buffers)", _m + "; symbolic finite samples in call 1", stubs=FFT_STUBS)
-_c11("c11_fto_ch1", "FftFixedOut<f64> 2->3 chunk 4: 2-channel vs twin for channel 1, 1 call", _m, stubs=FFT_STUBS)
+_c11("c11_fto_ch1", "FftFixedOut<f64> 2->3 chunk 4, sub_chunks 2 (block 2/3: the next input need changes after one call): 2-channel vs twin for channel 1, 1 call", _m, stubs=FFT_STUBS)
 _c11("c11_fti_ch0", "FftFixedIn<f64> 2->3 chunk 4: 2-channel vs twin for channel 0, 1 call", _m, stubs=FFT_STUBS)
 _c11("c11_witness", "twin fed the other channel's data: must FAIL (vacuity witness)", "none", witness=True)
 
@@ -295,3 +295,11 @@ _c13("c13_shape_fti_zero_output_lite", "FftFixedIn<f64>::new(2,3,1,1,2): chunk s
 _c13("c13_ffo_failed_call_midstream", "FastFixedOut<f64> Linear ratio 0.75 chunk 2: two valid calls on the index signal, one failed call, then a valid call compared bit-exactly with a twin", sym="which malformed call: input one frame short / output one frame short / too many input channels")
 _c05("c05_ftio_vs_fto_small_chunk", "FftFixedInOut(2,3,2) 2 calls vs FftFixedOut(2,3,1,1) 6 calls: FFT block 3 larger than the output chunk 1; outputs bit-identical", "none (concrete)", stubs=FFT_STUBS)
 _c06("c06_ffo_change_big", ["C06"], "FastFixedOut<f64> Linear chunk 20, max_rel 2: 1 warm-up call, setter + 1 call (the input need during a ramp only matters when chunk*|1/old-1/new| exceeds the 8-frame margin)", "new ratio k/32 (D_grid); ramp bool", tier="thorough", cap=3600)
+
+HARNESSES["c03_ffo_reset_plain"] = H("c03", ["C03", "C04"], cap=900, sym="ratio before the reset: k/32 (D_grid); ramp",
+    bounds="FastFixedOut<f64> Nearest chunk 10, max_rel 2: setter, reset(), two plain calls (no setter after the reset); region [base]")
+_c05("c05_sfi_chunk_change_to3", "SincFixedIn<f64>+Probe(4,2) Linear, max chunk 8, ratio 1: 2 calls, set_chunk_size(3), 2 calls; strict probe and uniform instants", "none (concrete new size; the symbolic-size variant is thorough)")
+HARNESSES["c05_sfi_chunk_change"]["tier"] = "thorough"
+HARNESSES["c05_sfi_chunk_change"]["thorough_cap"] = 5400
+_c14("c14_ffo_grid", "FastFixedOut<f64> Linear chunk 3: ratio set once, 2 calls; every frame inside the stream: |j - (tau*ratio + output_delay())| <= max(1,ratio)+1", "ratio k/32 (D_grid)")
+HARNESSES["c14_ffo"]["tier"] = "thorough"
